@@ -15,7 +15,7 @@ from ..core.common import Collector, run_shards
 PROPERTY = "C10"
 LEVEL = "model_checking"
 RULE = ("BFS over operation histories to depth 4 (thorough 5): S(i) sync_individual, M(i) mutate individual i (new costs, population id, "
-        "features, custom), A sync_all; four individuals (two sharing an id) with values from {0.0,-0.0,5e-324,2.2e-308,0.1,1/3,1.8e308,"
+        "features, custom objects), P(i) mutate in place (same dict/list objects), A sync_all; four individuals (two sharing an id) with values from {0.0,-0.0,5e-324,2.2e-308,0.1,1/3,1.8e308,"
         "inf,-inf} as Python floats and numpy float64, costs_signed ending in a bool, features as NSGA-II / swarm / gradient / worst-case "
         "algorithms write them (incl. parent/child references and id lists), nested custom data; problem definitions with names needing "
         "quoting and extra parameter keys. After EVERY operation the file is reopened with ProblemViewDataStore and with plain sqlite3 and "
@@ -96,8 +96,10 @@ def make_world(variant):
     extra = [{"tol": 0.1, "initial_value": 0.5, "note": 'quote " and \' ; -- DROP TABLE individuals'}, {"precision": 1e-3}]
     problem = make_problem(name='it\'s "x"; DROP TABLE main; --', n_params=2, bounds=[[0.0, 1.0], [-1e12, 1e12]],
                            criteria=["minimize", "maximize"], param_extra=extra)
-    problem.parameters[1]["name"] = 'y "quoted" é'
+    problem.parameters[0]["name"] = 'zeta_10'             # definition order differs from lexical order of the names
+    problem.parameters[1]["name"] = 'alpha "quoted" é'
     problem.description = "multi\nline 'description'"
+    problem.costs[0]["name"], problem.costs[1]["name"] = "weight", "efficiency"
     db = fresh_db("c10")
     store = SqliteDataStore(problem, database_name=db)
     problem.data_store = store
@@ -134,7 +136,24 @@ def mutate(ind, count, wrap):
     ind.custom = {"mutation": count, "v": [SPECIAL[(k + 2) % 9]]}
 
 
-OPS = [("S", i) for i in range(4)] + [("M", i) for i in range(4)] + [("A", None)]
+def mutate_in_place(ind, count, wrap):
+    """Changes that keep the container objects (no new dict / list is assigned): custom updated in place, one signed cost
+    and one feature entry overwritten in place."""
+    k = (count * 5 + ind.id) % 9
+    ind.custom["in_place"] = count
+    if ind.costs_signed:
+        ind.costs_signed[0] = wrap(SPECIAL[k])
+    else:
+        ind.costs_signed.append(wrap(SPECIAL[k]))
+        ind.costs_signed.append(True)
+    v = ind.features.get('velocity')
+    if isinstance(v, list) and v:
+        v[0] = wrap(SPECIAL[(k + 3) % 9])
+    else:
+        ind.features['velocity'] = [wrap(SPECIAL[(k + 3) % 9])]
+
+
+OPS = [("S", i) for i in range(4)] + [("M", i) for i in range(4)] + [("P", i) for i in (1, 3)] + [("A", None)]
 
 
 def apply_history(history, variant):
@@ -142,6 +161,7 @@ def apply_history(history, variant):
     problem, store, db, inds, wrap = make_world(variant)
     ref = {}                 # id -> image at the last synchronisation
     counts = [0, 0, 0, 0]
+    pcounts = [0, 0, 0, 0]
     out = []
     for step, (op, i) in enumerate(history):
         try:
@@ -151,6 +171,9 @@ def apply_history(history, variant):
             elif op == "M":
                 counts[i] += 1
                 mutate(inds[i], counts[i], wrap)
+            elif op == "P":
+                pcounts[i] += 1
+                mutate_in_place(inds[i], pcounts[i], wrap)
             else:
                 store.sync_all()
                 for ind in problem.individuals:
@@ -160,7 +183,7 @@ def apply_history(history, variant):
             return out, None
     out += observe(problem, db, ref, "history %r variant %s" % (history, variant))
     rows = read_rows(db)
-    canon = (tuple(sorted((rid, js) for rid, js in rows)), tuple(counts))
+    canon = (tuple(sorted((rid, js) for rid, js in rows)), tuple(counts), tuple(pcounts))
     return out, canon
 
 
